@@ -15,7 +15,13 @@ that uses this module refuses to run the RISC-V part when that self-check does n
 
 import hashlib
 
-from . import rv32
+try:  # the emulator is another builder's module: this one must import even when that one does not
+    from . import rv32
+
+    _IMPORT_ERROR = None
+except Exception as _e:  # pragma: no cover
+    rv32 = None
+    _IMPORT_ERROR = "%s: %s" % (type(_e).__name__, str(_e)[:200])
 
 ARENA_BASE = 0x20000000
 ARENA_SIZE = 4096
@@ -131,6 +137,8 @@ _SELF = []
 
 def validated():
     """(ok, note): the emulator's own self-check (cached by rv32 in /verif/.build)."""
+    if not _SELF and rv32 is None:
+        _SELF.append((False, "vf/rv32.py cannot be imported (%s)" % _IMPORT_ERROR))
     if not _SELF:
         try:
             r = rv32.selfcheck("quick")
